@@ -200,14 +200,14 @@ def run_scenario(sc, work, fixed_cache):
     p = subprocess.run(cmd, stdout=subprocess.PIPE, stderr=subprocess.STDOUT, env=env, preexec_fn=lambda: os.umask(sc["umask"]), timeout=300)
     out = p.stdout.decode(errors="replace")
     paths = {target: "target", tmp: "tmp", bak: "bak"}
-    ev, killed = parse_strace(log, paths, {"tmp": len(fixed) if fixed is not None else -1, "bak": len(orig)})
+    ev, killed = parse_strace(log, paths, {"tmp": len(fixed) if fixed is not None else -1, "target": len(fixed) if fixed is not None else -1, "bak": len(orig)})
     if fixed is None and not inj:
         # first fault-free run of this scenario base defines what "fixed" is
         with open(target, "rb") as f:
             now = f.read()
         fixed = now if now != orig else None
         fixed_cache[(sc["src"], sc.get("transform"), tuple(sc["args"]))] = fixed
-        ev, killed = parse_strace(log, paths, {"tmp": len(fixed) if fixed is not None else -1, "bak": len(orig)})
+        ev, killed = parse_strace(log, paths, {"tmp": len(fixed) if fixed is not None else -1, "target": len(fixed) if fixed is not None else -1, "bak": len(orig)})
     final = {}
     for name, pth in (("target", target), ("tmp", tmp), ("bak", bak)):
         c, m = classify(pth, orig, fixed)
